@@ -925,6 +925,43 @@ def run_realistic(ctx, numqi, torch):
             ctx.set_case({'op': 'get_ABk_gellmann_preimage_op', 'dimA': dimA, 'dimB': dimB, 'kext': k})
             with driver(ctx, 'realistic/get_ABk_gellmann_preimage_op'):
                 numqi.maximum_entropy.get_ABk_gellmann_preimage_op(dimA, dimB, k, kind='boson')
+    # the anchored consumer of the Dicke table (maximum_entropy/_internal.py): the lifted operators O_i must satisfy
+    # <psi|O_i|psi> = Tr[G_i rho_AB] with rho_AB the EXPLICIT reduction (embed with the reference Dicke basis, trace k-1 copies) for
+    # kind='boson', and the average over the k copies of the explicit two-party marginals for kind='symmetric'
+    ctx.workload('random')
+    triples = [(2, 2, 2), (2, 3, 2), (3, 2, 2), (2, 2, 3), (3, 2, 3), (2, 3, 3), (3, 3, 2)] + ([(2, 2, 4), (4, 2, 2), (2, 4, 2), (3, 2, 4), (2, 2, 5)] if big else [])
+    for dimA, dimB, k in triples:
+        for kind in ('boson', 'symmetric'):
+            if kind == 'symmetric' and dimA * dimB**k > 64:
+                continue
+            ctx.set_case({'op': 'get_ABk_gellmann_preimage_op/value', 'dimA': dimA, 'dimB': dimB, 'kext': k, 'kind': kind})
+            with ctx.guard('get_ABk_gellmann_preimage_op'):
+                ops = np.asarray(numqi.maximum_entropy.get_ABk_gellmann_preimage_op(dimA, dimB, k, kind=kind))
+                G = np.asarray(numqi.gellmann.all_gellmann_matrix(dimA * dimB, with_I=False))
+                nd = rd.number(k, dimB)
+                D = dimA * (nd if kind == 'boson' else dimB**k)
+                ctx.case('preimage-op', dimA, dimB, k, kind)
+                ok_shape = ops.shape == (G.shape[0], D, D)
+                ctx.check(ok_shape, f'get_ABk_gellmann_preimage_op/{kind}/shape', 'lifted Gell-Mann operators have the wrong shape', {'shape': ops.shape, 'expected': (G.shape[0], D, D)})
+                if not ok_shape:
+                    continue
+                worst = 0.0
+                for _ in range(3):
+                    if kind == 'boson':
+                        psi = rng.normal(size=(dimA, nd)) + 1j * rng.normal(size=(dimA, nd))
+                        psi /= np.linalg.norm(psi)
+                        rho_ab = rd.reduce_explicit(psi, k, dimB)
+                        vec = psi.reshape(-1)
+                    else:
+                        vec = rng.normal(size=D) + 1j * rng.normal(size=D)
+                        vec /= np.linalg.norm(vec)
+                        full = np.outer(vec, vec.conj())
+                        rho_ab = sum(rp.partial_trace(full, [dimA] + [dimB] * k, (0, j)) for j in range(1, k + 1)) / k
+                    got = np.einsum(vec.conj(), [1], ops, [0, 1, 2], vec, [2], [0])
+                    want = np.einsum(G, [0, 1, 2], rho_ab, [2, 1], [0])
+                    worst = max(worst, float(np.abs(got - want).max()))
+                ctx.check(worst < 1e-10, f'get_ABk_gellmann_preimage_op/{kind}/expectation-differs-from-explicit-reduction',
+                          '<psi|lift(G_i)|psi> differs from Tr[G_i rho_AB] with rho_AB from the explicit embedding and trace', {'max_abs_err': worst})
         for k in (1, 2, 3, 5) + ((8,) if big else ()):
             ctx.set_case({'op': 'get_symmetric_extension_irrep_coeff', 'dim': 2, 'kext': k})
             with driver(ctx, 'realistic/get_symmetric_extension_irrep_coeff'):
